@@ -56,3 +56,22 @@ impl Clone for Value {
     #[verifier::external_body]
     fn clone(&self) -> (r: Self) ensures r == *self { unimplemented!() }
 }
+// ---- percent-encoding crate: `percent_encode(bytes, SET)` displays each byte verbatim or as %XX as the set says
+// (what the two sets do to each of the 256 byte values is decided by complete enumeration in engine K; here the
+// sets are two opaque constants, so that WHICH set a filter uses is part of what is proved)
+pub enum VxSet { Python, Strict }
+pub const PYTHON_ENCODE_SET: VxSet = VxSet::Python;
+pub const NON_ALPHANUMERIC: VxSet = VxSet::Strict;
+pub uninterp spec fn str_bytes(s: Seq<char>) -> Seq<u8>;
+pub uninterp spec fn pe(b: Seq<u8>, set: VxSet) -> Seq<char>;
+#[verifier::external_body]
+pub struct VxPercentEncode { _p: () }
+impl VxPercentEncode {
+    pub uninterp spec fn text(&self) -> Seq<char>;
+    #[verifier::external_body]
+    pub fn to_string(&self) -> (r: String) ensures r@ == self.text() { unimplemented!() }
+}
+#[verifier::external_body]
+pub fn percent_encode(b: &[u8], set: VxSet) -> (r: VxPercentEncode) ensures r.text() == pe(b@, set) { unimplemented!() }
+#[verifier::external_body]
+pub fn vx_str_bytes(s: &str) -> (r: &[u8]) ensures r@ == str_bytes(s@) { unimplemented!() }
